@@ -1377,6 +1377,155 @@ func (s Segment) NeedsReindex() (bool, error) {""")]),
 		return OffsetInvalid, nil, err
 	}
 """)]),
+ ("reader.Consume: if chain, release through a named cleanup, next offset in a local", [("log_reader.go", """	position, maxPosition, nextOffset, err := index.Consume(offset)
+	switch {
+	case err != nil:
+		return OffsetInvalid, nil, err
+	case position == -1:
+		return nextOffset, nil, nil
+	}
+
+	messages, err := r.getMessages()
+	if err != nil {
+		return OffsetInvalid, nil, err
+	}
+	defer r.messagesInuse.Add(-1)
+
+	msgs, err := messages.Consume(position, maxPosition, maxCount)
+	if err != nil {
+		return OffsetInvalid, nil, err
+	}
+	if len(msgs) == 0 {
+		// the index points to a message, but the log ends before it
+		return OffsetInvalid, nil, fmt.Errorf("%w: indexed message is missing", message.ErrCorrupted)
+	}
+	return msgs[len(msgs)-1].Offset + 1, msgs, nil""", """	position, maxPosition, nextOffset, err := index.Consume(offset)
+	if err != nil {
+		return OffsetInvalid, nil, err
+	}
+	if position == -1 {
+		return nextOffset, nil, nil
+	}
+
+	messages, err := r.getMessages()
+	if err != nil {
+		return OffsetInvalid, nil, err
+	}
+	release := func() { r.messagesInuse.Add(-1) }
+	defer release()
+
+	msgs, err := messages.Consume(position, maxPosition, maxCount)
+	if err != nil {
+		return OffsetInvalid, nil, err
+	}
+	if n := len(msgs); n == 0 {
+		// the index points to a message, but the log ends before it
+		return OffsetInvalid, nil, fmt.Errorf("%w: indexed message is missing", message.ErrCorrupted)
+	} else {
+		after := msgs[n-1].Offset + 1
+		return after, msgs, nil
+	}""")]),
+ ("ReindexReader: for with position in the clause, switch on the read error", [("pkg/segment/segment.go", """	var position = log.InitialPosition()
+	var indexTime int64
+	var newIndex []index.Item
+	for {
+		msg, nextPosition, err := log.Read(position)
+		if errors.Is(err, io.EOF) {
+			break
+		} else if err != nil {
+			return nil, err
+		}
+
+		item := params.NewItem(msg, position, indexTime)
+		newIndex = append(newIndex, item)
+
+		position = nextPosition
+		indexTime = item.Timestamp
+	}
+""", """	var indexTime int64
+	var newIndex []index.Item
+scan:
+	for position := log.InitialPosition(); ; {
+		msg, nextPosition, err := log.Read(position)
+		switch {
+		case err == nil:
+		case errors.Is(err, io.EOF):
+			break scan
+		default:
+			return nil, err
+		}
+
+		item := params.NewItem(msg, position, indexTime)
+		newIndex = append(newIndex, item)
+		indexTime = item.Timestamp
+		position = nextPosition
+	}
+""")]),
+ ("FindByCount: countdown folded into the loop condition, batch size in a constant", [("trim_count.go", """	for offset := OffsetOldest; offset < maxOffset && toRemove > 0; {
+		nextOffset, msgs, err := l.Consume(offset, 32)
+		if err != nil {
+			return nil, err
+		}
+		offset = nextOffset
+
+		for _, msg := range msgs {
+			offsets[msg.Offset] = struct{}{}
+			toRemove--
+
+			if toRemove <= 0 {
+				break
+			}
+		}
+""", """	const batch = 32
+	for offset := OffsetOldest; offset < maxOffset && toRemove > 0; {
+		nextOffset, msgs, err := l.Consume(offset, batch)
+		if err != nil {
+			return nil, err
+		}
+		offset = nextOffset
+
+		for i := 0; i < len(msgs) && toRemove > 0; i++ {
+			offsets[msgs[i].Offset] = struct{}{}
+			toRemove--
+		}
+""")]),
+ ("FindUpdates: cut-off ends the scan through a flag instead of a labelled break", [("compact_updates.go", """SEARCH:
+	for offset := OffsetOldest; offset < maxOffset; {
+		nextOffset, msgs, err := l.Consume(offset, 32)
+		if err != nil {
+			return nil, err
+		}
+		offset = nextOffset
+
+		for _, msg := range msgs {
+			if msg.Time.After(before) {
+				break SEARCH
+			}
+
+			if prevMsgOffset, ok := keyOffset.Insert(msg.Key, msg.Offset); ok {
+				offsets[prevMsgOffset.(int64)] = struct{}{}
+			}
+		}
+""", """	done := false
+	for offset := OffsetOldest; offset < maxOffset && !done; {
+		nextOffset, msgs, err := l.Consume(offset, 32)
+		if err != nil {
+			return nil, err
+		}
+		offset = nextOffset
+
+		for _, msg := range msgs {
+			if msg.Time.After(before) {
+				done = true
+				break
+			}
+
+			prevMsgOffset, replaced := keyOffset.Insert(msg.Key, msg.Offset)
+			if replaced {
+				offsets[prevMsgOffset.(int64)] = struct{}{}
+			}
+		}
+""")]),
 ]
 
 def main():
